@@ -1,5 +1,5 @@
 (* C20_schema_walk — pkg/chart/v2/util/jsonschema.go: ValidateAgainstSchema :32 (the walk over
-   the subcharts, after fix a1cf667) and ValidateAgainstSingleSchema :59 (whose body runs
+   the subcharts, after fix a1cf667) and ValidateAgainstSingleSchema :68 (whose body runs
    the third-party JSON-schema compiler/validator under a deferred recover()). *)
 From Coq Require Import List String Bool.
 From Helm Require Import Values.Tree Misc.Panics.
